@@ -186,6 +186,8 @@ def guarded_callable(g, con, rng, calls, scribble, raised):
     def f(v):
         calls[0] += 1
         vv = [float(t) for t in v]
+        if 12345.0 in vv:
+            raised.append("LEAK")
         fire = g is not None and g[1] < len(vv) and vv[g[1]] > g[2]
         if fire and g[0] in ("zdiv", "tverr", "raise"):
             e = make_exc(g[0], rng)
@@ -274,6 +276,18 @@ def xcomb_check(cs, rep, findings, hist):
             "impl": {"fired": obs["fired"], "y": obs["y"], "calls": obs["calls"], "exc": repr(obs["exc"])}}
     res = compare(kind, obs, rep, None, case, findings, "xcomb")
     mon = []
+    leak = "LEAK" in cs["raised"] or (obs["y"] is not None and 12345.0 in obs["y"] and 12345.0 not in cs["x"])
+    cs["raised"] = [e for e in cs["raised"] if e != "LEAK"]
+    if leak:
+        mon.append(("comb/argument-mutation-leaked", "a member scribbled 12345.0 over its argument before raising and the value "
+                    "re-appeared in a later member input / the result: the member was not handed a copy"))
+    classes = [classify(e) for e in cs["raised"]]
+    if obs["exc"] is None and "raise" in classes:
+        mon.append(("comb/propagating-class-swallowed", "%s_ swallowed %r (only ZeroDivisionError and TypeError/ValueError "
+                    "not about unsupported complex comparison are documented as handled)" % (kind, cs["raised"][classes.index("raise")])))
+    if obs["exc"] is not None and "raise" not in classes:
+        mon.append(("comb/swallowed-class-propagated", "%s_ let %r through although every exception its members raised (%r) "
+                    "belongs to the classes it handles (ZeroDivisionError, TypeError/ValueError)" % (kind, obs["exc"], cs["raised"])))
     if obs["exc"] is not None:
         # monitor: a propagating exception fires no exit path and is the member's own exception (`raise exc`) or
         # the one the handler itself produced while inspecting it (IndexError / AttributeError on exc.args[0])
@@ -377,6 +391,7 @@ def oracle_case(rng, hist):
     recs = []
     descs = []
     fns = []
+    leaks = []
     for _ in range(n):
         factory, d = gen_stateful(rng, dim)
         descs.append(d)
@@ -386,6 +401,8 @@ def oracle_case(rng, hist):
             def f(v):
                 calls[0] += 1
                 inp = [float(t) for t in v]
+                if -777.0 in inp:
+                    leaks.append(1)
                 try:
                     y = inner([float(t) for t in v])
                 except Exception as e:       # noqa
@@ -407,7 +424,7 @@ def oracle_case(rng, hist):
     else:
         line = "C17 o%s (n %d) (cap %d) (x %s) (recs (%s)) (draws %s)" % (kind, n, cap * n, fl(x), rs, ds)
     return {"stream": "oracle", "kind": kind, "descs": descs, "cap": cap, "x": x, "obs": obs, "line": line,
-            "recs": recs, "n": n}
+            "recs": recs, "n": n, "leaks": leaks}
 
 
 def oracle_check(cs, rep, findings, hist):
@@ -419,6 +436,24 @@ def oracle_check(cs, rep, findings, hist):
     mon = []
     recs = cs["recs"]
     n = cs["n"]
+    if cs["leaks"] or (obs["y"] is not None and -777.0 in obs["y"]):
+        mon.append(("comb/argument-mutation-leaked", "a member scribbled -777.0 over its argument before raising and the value "
+                    "re-appeared in a later member input / the result: the member was not handed a copy"))
+    classes = [o for inp, o, out in recs if o != "ret"]
+    if obs["exc"] is None and "raise" in classes:
+        mon.append(("comb/propagating-class-swallowed", "%s_ swallowed an exception of a class it does not handle" % kind))
+    if obs["exc"] is not None and "raise" not in classes:
+        mon.append(("comb/swallowed-class-propagated", "%s_ let %r through although every member exception was of a handled class" % (kind, obs["exc"])))
+    # every member call gets the vector the documented iteration prescribes - checked directly for and_:
+    # call j receives the latest entry (previous output, or the previous input again after a swallowed exception,
+    # or a random replacement of it - the latter only when draws were consumed)
+    if kind == "and" and not obs["draws"]:
+        prev = [float(t) for t in cs["x"]]
+        for j, (inp, o, out) in enumerate(recs):
+            if inp != prev:
+                mon.append(("and_/member-input-not-latest", "and_ call %d received %r, the latest entry is %r" % (j, inp, prev)))
+                break
+            prev = out if o == "ret" else inp
     if obs["exc"] is None and obs["fired"] == ["exit"] and res is not None and res[1] == "exit":
         # the oracle form of the property (and_success_links_oracle / or_ / not_): the calls the theorem names
         # returned the result unchanged - checked on the RECORDED calls of the real run
@@ -620,6 +655,20 @@ def pen_check(cs, rep, findings, hist):
     for node in all_nodes(cs["root"]):
         if node["kind"] == "leaf":
             hist["pen-leaf:%s:%s" % (node["t"], node["via"])] = hist.get("pen-leaf:%s:%s" % (node["t"], node["via"]), 0) + 1
+            if node["via"] == "as_penalty":
+                # adapter: the condition of as_penalty(c) is the Euclidean distance |c(x) - x| (zero iff c keeps x)
+                con = cs["leaves"][node["leaf"]][1]
+                for x in cs["pts"]:
+                    try:
+                        cx = dsl.con_apply(con, x)
+                        d = math.sqrt(sum((p - q) ** 2 for p, q in zip(cx, x)))
+                        got = float(node["obj"].func(list(x)))
+                    except ZeroDivisionError:
+                        continue
+                    if not close(got, d, 1e-9) or (got == 0.0) != (cx == [float(t) for t in x]):
+                        findings.append(Finding("monitor", "adapter/as_penalty-rnorm", "as_penalty(c).func(x) = %r at x=%r, "
+                                                "|c(x) - x| = %r" % (got, x, d), case))
+                    hist["pen-mon:as_penalty"] = hist.get("pen-mon:as_penalty", 0) + 1
             continue
         hist["pen-node:%s:%s" % (node["kind"], node["t"])] = hist.get("pen-node:%s:%s" % (node["kind"], node["t"]), 0) + 1
         if node["t"] not in CONFORMING or not (node["k"] > 0 and node["h"] > 0):
@@ -677,21 +726,26 @@ def cpl_case(rng, hist):
     A = dict(kwds={"a": a}) if kw else dict(args=(a,))
     Ab = dict(kwds={"b": a}) if kw else dict(args=(a,))
     xs = list(x)
-    try:
-        got = {
-            "inner": coupler.inner(cA, **A)(fB)(xs, b),
-            "outer": coupler.outer(cA, **A)(gB)(xs, b),
-            "innerp": coupler.inner_proxy(cA, **Ab)(fB)(xs, b),
-            "outerp": coupler.outer_proxy(cA, **Ab)(gB)(xs, b),
-            "add": coupler.additive(pA, **A)(fB)(xs, b),
-            "addp": coupler.additive_proxy(pA, **Ab)(fB)(xs, b),
-            "wi": C.with_constraint(coupler.inner, **A)(cA)(xs),
-            "wo": C.with_constraint(coupler.outer, **A)(cA)(xs),
-            "wip": C.with_constraint(coupler.inner_proxy)(cA)(xs, b),
-            "wop": C.with_constraint(coupler.outer_proxy)(cA)(xs, b),
-        }
-    except ZeroDivisionError:
-        return None
+    calls_ = {
+        "inner": lambda: coupler.inner(cA, **A)(fB)(xs, b),
+        "outer": lambda: coupler.outer(cA, **A)(gB)(xs, b),
+        "innerp": lambda: coupler.inner_proxy(cA, **Ab)(fB)(xs, b),
+        "outerp": lambda: coupler.outer_proxy(cA, **Ab)(gB)(xs, b),
+        "add": lambda: coupler.additive(pA, **A)(fB)(xs, b),
+        "addp": lambda: coupler.additive_proxy(pA, **Ab)(fB)(xs, b),
+        "wi": lambda: C.with_constraint(coupler.inner, **A)(cA)(xs),
+        "wo": lambda: C.with_constraint(coupler.outer, **A)(cA)(xs),
+        "wip": lambda: C.with_constraint(coupler.inner_proxy)(cA)(xs, b),
+        "wop": lambda: C.with_constraint(coupler.outer_proxy)(cA)(xs, b),
+    }
+    got = {}
+    for k_, fn_ in calls_.items():
+        try:
+            got[k_] = fn_()
+        except ZeroDivisionError:
+            return None
+        except Exception as exc:       # noqa - the coupler mis-routed its argument bundles
+            got[k_] = exc
     line = "C17 cpl (x %s) (c %s) (f %s) (p %s) (a %s) (b %s)" % (fl(x), dsl.con_sexp(c), dsl.expr_sexp(e), dsl.expr_sexp(e2), f2b(a), f2b(b))
     return {"stream": "cpl", "x": x, "xs": xs, "got": got, "line": line, "kw": kw,
             "want": {"inner": fB(cA(x, a), b), "outer": cA(gB(x, b), a), "innerp": fB(cA(x, b), a),
@@ -701,11 +755,15 @@ def cpl_case(rng, hist):
 
 def cpl_check(cs, rep, findings, hist):
     r = parse_reply(rep)
-    case = {"stream": "cpl", "x": cs["x"], "request": cs["line"], "model": rep, "impl": {k: (v if isinstance(v, float) else list(v)) for k, v in cs["got"].items()}}
+    case = {"stream": "cpl", "x": cs["x"], "request": cs["line"], "model": rep, "impl": {k: (v if isinstance(v, float) else (repr(v) if isinstance(v, Exception) else list(v))) for k, v in cs["got"].items()}}
     if r[0] != "ok":
         findings.append(Finding("correspondence", "cpl/model-%s" % r[0], "model replied %r" % (rep,), case))
         return False
     for k, v in cs["got"].items():
+        if isinstance(v, Exception):
+            findings.append(Finding("monitor", "coupler/%s-raises" % k, "coupler %s with arguments raised %r; the documented "
+                                    "composition gives %r" % (k, v, cs["want"][k]), case))
+            continue
         if isinstance(v, float):
             ok = same_float(v, common.b2f(r[1][k]))
             okm = same_float(v, cs["want"][k])
